@@ -8,7 +8,7 @@ CONSTANTS
   Kinds = {"text", "expr", "el", "void"}
   InlineNames = {"span"}
   BlockNames = {"div"}
-  VoidNames = {"img", "br"}
+  VoidNames = {"img", "br", "wbr"}
   AttrChoices <- AttrChoicesNone
   WsChoices = {"", "h", "v"}
   Words = {"w1", "w3"}
